@@ -236,6 +236,20 @@ impl World {
         }
     }
 
+    /// a fault of the disk seam fired on the calling simulated thread
+    pub fn disk_fault_fired(&self, op: usize, errno: usize) {
+        if let Ok(mut st) = self.st.try_lock() {
+            let who = shuttle::thread::current().name().map(|s| s.to_string());
+            let conn = who.as_ref().and_then(|n| st.serving.get(n).copied());
+            let what = format!("disk_{}:{}", ["?", "read", "open", "stat", "seek"][op.min(4)], if errno == 0 { "eof".to_string() } else { format!("errno{}", errno) });
+            st.log("disk_fault", conn.unwrap_or(usize::MAX), (op * 1000 + errno) as u64);
+            st.reach("disk_fault_fired");
+            if let Some(c) = conn {
+                st.conns[c].fired.push(what);
+            }
+        }
+    }
+
     /// the code under test is about to touch a file: a scheduling point of the disk seam
     pub fn io_point(&self, kind: &'static str) {
         // never while this very thread is inside the harness state (no re-entrancy)
